@@ -40,7 +40,10 @@ def allocator_worker(analysis: Analysis, spec) -> dict:
             rows.append({"form": "raises", "ok": False, "bounded": False, "detail": f"{v.cls.__name__}: {v.what}", "witness": describe_path(out)})
             continue
         if isinstance(v, Const) and v.value is None:
-            rows.append({"form": "none", "ok": True, "bounded": True, "detail": "no id available", "witness": None})
+            # giving up is justified only by the candidate exceeding MAX_NODE_ID
+            above = any(f[0] == "atom" and f[1][0] == "cmp" and f[1][3] == ("c", "int", maxid) and ((f[1][1] == "LtE" and f[2] is False) or (f[1][1] == "Gt" and f[2] is True)) for f in s.facts)
+            above = above or any(f[0] == "atom" and f[1][0] == "cmp" and f[1][3] == ("c", "int", maxid + 1) and ((f[1][1] == "Lt" and f[2] is False) or (f[1][1] == "GtE" and f[2] is True)) for f in s.facts)
+            rows.append({"form": "none", "ok": True, "bounded": True, "exhausted": above, "detail": "no id available", "witness": describe_path(out)})
             continue
         form = None
         if isinstance(v, Const) and isinstance(v.value, int):
@@ -62,6 +65,14 @@ def allocator_worker(analysis: Analysis, spec) -> dict:
             bounded = True
         rows.append({"form": form, "ok": form is not None, "bounded": bounded, "detail": form or f"returned value {v.key()!r} is not fresh by any recognised argument", "witness": describe_path(out)})
     return {"ctx": ctx.name, "version": ctx.version, "rows": rows}
+
+
+def allocator_gives_up_late(analysis: Analysis, res: RuleResult, rule: str) -> None:
+    """The allocator returns None only when its candidate exceeds MAX_NODE_ID (shared by C06-R2 and C04-R1)."""
+    for summ in common.pmap(analysis, allocator_worker, [(analysis.versions[-1], "serial", "sync")]):
+        for r in summ["rows"]:
+            if r["form"] == "none":
+                res.add(rule, "__init__:Gateway._get_next_id / gives up only when the candidate id exceeds MAX_NODE_ID (254 is still handed out)", r["exhausted"], "mysensors/__init__.py", "None is returned under `candidate > MAX_NODE_ID`" if r["exhausted"] else "None is returned on a path that is not guarded by `candidate > MAX_NODE_ID`: an id request that could be served (e.g. 254) gets no node, no callback and no reply", r["witness"] if not r["exhausted"] else None, context=summ["ctx"])
 
 
 def run(analysis: Analysis, tier: str) -> RuleResult:
@@ -90,6 +101,7 @@ def run(analysis: Analysis, tier: str) -> RuleResult:
         form = descr.norm(row["d"]) if row else None
         ok = form is not None and form[0] == "INT_RANGE" and form[1] == 1 and form[2] == c["MAX_NODE_ID"] == 254
         res.add("C06-R2", f"{ver}: allocator bound and I_ID_RESPONSE rule agree on 1..254", ok, c["module"], f"MAX_NODE_ID {c['MAX_NODE_ID']}, response rule {descr.show(form)}")
+    allocator_gives_up_late(analysis, res, "C06-R2")
     # R3 from the handler paths
     specs = specs_for(analysis, tier)
     recs = common.pmap(analysis, pathsum.logic_records, specs)
@@ -124,6 +136,7 @@ def run(analysis: Analysis, tier: str) -> RuleResult:
     # ... which needs: alert() really marks dirty on each of its paths, and the clean stop closes the link
     # before its single final save (an id reserved after the last save would be handed out again after restart)
     c14.alert_and_stop(analysis, res, "C06-R5", "C06-R5")
+    c14.pump_stops(analysis, res, "C06-R5")
     c14.flag_writers(analysis, res)
     for o in res.obs[before:]:
         o.rule = "C06-R5"
